@@ -11,3 +11,5 @@ import QlibcModel.Props.C06
 #print axioms Qlibc.Props.C06.history_refines
 #print axioms Qlibc.Shapes.Harr.widths_as_modelled
 #print axioms Qlibc.Shapes.Harr.no_hidden_static_state
+#print axioms Qlibc.Shapes.Harr.digest_compared_whole
+#print axioms Qlibc.Shapes.Harr.asserts_side_effect_free
